@@ -43,12 +43,25 @@ fn build_methods(
     definitions: &[(&str, NativeFn)],
     extra_methods: Option<ObjStringValueMap>,
 ) -> (ObjStringValueMap, Vec<Root<ObjNative>>) {
+    build_methods_for(vm, definitions, extra_methods, false)
+}
+
+fn build_methods_for(
+    vm: &mut Vm,
+    definitions: &[(&str, NativeFn)],
+    extra_methods: Option<ObjStringValueMap>,
+    accept_instances: bool,
+) -> (ObjStringValueMap, Vec<Root<ObjNative>>) {
     let mut roots = Vec::new();
     let mut methods = extra_methods.unwrap_or(object::new_obj_string_value_map());
 
     for (name, native) in definitions {
         let name = vm.new_gc_obj_string(name);
-        let obj_native = vm.new_root_obj_native(name, *native);
+        let obj_native = if accept_instances {
+            Root::new(ObjNative::new(name, *native, false).accepting_instances())
+        } else {
+            vm.new_root_obj_native(name, *native)
+        };
         roots.push(obj_native.clone());
         methods.insert(name, Value::ObjNative(obj_native.as_gc()));
     }
@@ -143,7 +156,7 @@ pub(crate) fn object_derives(vm: &mut Vm, num_args: usize) -> Result<Value, Erro
 
 pub(crate) unsafe fn bind_object_class(vm: &mut Vm, class: &mut Root<ObjClass>) {
     let method_map = [("derives", object_derives as NativeFn)];
-    let (methods, _native_roots) = build_methods(vm, &method_map, None);
+    let (methods, _native_roots) = build_methods_for(vm, &method_map, None, true);
     class.as_mut().methods = methods;
 }
 
